@@ -134,7 +134,7 @@ pub struct Multiplexor<R = SmallRng> {
     /// task should exit.
     /// `Multiplexor` only use this to inform the task that the multiplexor is dropped
     /// and it should stop processing.
-    dropped_flows_tx: mpsc::UnboundedSender<u32>,
+    dropped_flows_tx: mpsc::UnboundedSender<DroppedFlow>,
     /// Channel of received datagram frames for processing.
     datagram_rx: Mutex<mpsc::Receiver<Datagram>>,
     /// Channel for a `Multiplexor` to receive newly
@@ -432,9 +432,30 @@ impl<R: Rng + Send> Multiplexor<R> {
 
 impl<R> Drop for Multiplexor<R> {
     fn drop(&mut self) {
-        if self.dropped_flows_tx.send(0).is_err() {
+        let mux_dropped = DroppedFlow {
+            flow_id: 0,
+            finish_sent: Arc::new(AtomicBool::new(true)),
+        };
+        if self.dropped_flows_tx.send(mux_dropped).is_err() {
             debug!("failed to inform task of dropped multiplexor");
         }
+    }
+}
+
+/// Notification that a `MuxStream` was dropped.
+/// Flow IDs are reused, so by the time the task processes the notification the ID alone may
+/// already name a newer stream; `finish_sent` (shared only between a `MuxStream` and its own
+/// slot) tells them apart.
+#[derive(Debug)]
+struct DroppedFlow {
+    flow_id: u32,
+    finish_sent: Arc<AtomicBool>,
+}
+
+impl PartialEq<u32> for DroppedFlow {
+    #[inline]
+    fn eq(&self, flow_id: &u32) -> bool {
+        self.flow_id == *flow_id
     }
 }
 
